@@ -564,8 +564,29 @@ class Run:
         self.snapshot(final=True, settled=False, livelock=True)
         return self.finish(status)
 
-    def go(self, max_steps=400000):
+    def _run(self, max_steps, until=None):
+        """k.run, but a run in which nothing observable happens for `quiet_steps` consecutive scheduler steps (no event logged:
+        no task or client event, no message handled by a boss) is cut short as 'maxsteps': it spins without making progress."""
+        def stop():
+            n = len(rtprog.LOG)
+            if n != self._last_n:
+                self._last_n, self._last_step = n, self.k.steps
+            q = self.k.steps - self._last_step
+            if q > self.max_quiet:
+                self.max_quiet = q
+            if q > self.quiet_steps:
+                self._spinning = True
+                return True
+            return until is not None and until()
+        status = self.k.run(max_steps, until=stop)
+        if status == 'until' and self._spinning:
+            return 'maxsteps'
+        return status
+
+    def go(self, max_steps=400000, quiet_steps=10 ** 9):
         sc = self.sc
+        self.quiet_steps = quiet_steps
+        self._last_n, self._last_step, self.max_quiet, self._spinning = 0, 0, 0, False
         self.spawn_topology()
         for ci, script in enumerate(sc['clients']):
             self.pending[ci] = None
@@ -577,7 +598,7 @@ class Run:
             def until(kk=kk):
                 b = self.first_submit_step if base is None else base
                 return b is not None and self.k.steps >= b + kk
-            status = self.k.run(max_steps, until=until)
+            status = self._run(max_steps, until=until)
             if status != 'until':
                 break
             if node not in self.net.dead and any(t.node == node and t.state != 'done' for t in self.k.threads):
@@ -585,7 +606,7 @@ class Run:
                 self.net.crash(node)
                 self.crashed.append(node)
             base = self.k.steps
-        status = self.k.run(max_steps)
+        status = self._run(max_steps)
         if status == 'maxsteps':
             return self._stuck(status)
         settled = all(ci in self.at_gate for ci in range(len(sc['clients'])))
@@ -596,7 +617,7 @@ class Run:
             self.pending[pi] = None
             n0 = len(rtprog.LOG)
             self.k.spawn('probe.main', self.client, (pi, [['submit', '__p', '__probe'], ['result', '__p']], True), node='probe')
-            status = self.k.run(max_steps)
+            status = self._run(max_steps)
             rets = [e for e in rtprog.LOG[n0:] if e['e'] == 'ClientReturn' and e['call'] == 'result']
             ok = bool(rets) and rets[0]['kind'] == 'result' and self.pending[pi] is None
             # the probe's own events are not part of the judged trace (its only verdict is Probe.ok)
@@ -606,7 +627,7 @@ class Run:
             if status == 'maxsteps':
                 return self._stuck(status)
         self.gate_open = True
-        status = self.k.run(max_steps)
+        status = self._run(max_steps)
         if status == 'maxsteps':
             return self._stuck(status)
         self.snapshot(final=True, settled=False)
@@ -670,11 +691,11 @@ class Run:
             'thread_errors': [(t.name, repr(t.exc)[:300]) for t in self.k.threads if t.exc is not None],
             'blocked_threads': [(t.name, str(t.why)) for t in self.k.threads if t.state != 'done'][:30],
             'picks': self.sched.picks, 'choices': [list(c) for c in self.k.choices],
-            'crashed': self.crashed, 'notes': self.notes, 'stats': self.stats,
+            'crashed': self.crashed, 'notes': self.notes, 'stats': self.stats, 'max_quiet_steps': getattr(self, 'max_quiet', 0),
         }
         return trace, diag
 
 
-def run_scenario(sc, max_steps=400000):
+def run_scenario(sc, max_steps=400000, quiet_steps=10 ** 9):
     r = Run(sc)
-    return r.go(max_steps)
+    return r.go(max_steps, quiet_steps)
